@@ -500,6 +500,9 @@ class C17(KProp):
             "character, between its lines, at its start / end, at the end of the file +-1): lookups by name (present, absent, the name a reader "
             "stopping at the offset would invent) and by key equal the reference reader's, the key under test encrypts and decrypts; the smaller "
             "texts (quick <= 16 KiB, thorough <= 136 KiB) also through the Gallina parser; "
+            "encodings whose checksum differs in exactly ONE of its four bytes (each in turn), in every subset of them, rotated / reversed / computed "
+            "over something else, through pk_decode; and through the real program: keyrings in which the PublicKey of the section a command USES "
+            "(recipient of encrypt, SENDER of encrypt, recipient of decrypt) has such an encoding - error exit, nothing written (props_kvs.r6_c17_*); "
             "non-trivial = distinct driver lines other than the empty text")
     assumptions = ["ct-codecs base64 is specified in Spec/Base64.v and compared, not proved equal",
                    "well-formedness of key strings on acceptance is judged with Python's base64 (lenient on trailing bits)"]
@@ -1015,7 +1018,7 @@ class C17(KProp):
                 c.expect_fn = props_kvs.ref_oracle_on_case(c)
         self.run_kcases(ctx, tok, prelude=self.prelude(), tag="C17t")
         rest = look + self.random_cases(ctx, 4000 if ctx.thorough() else 500) + self.pk_cases(ctx) \
-            + self.writeback_cases(ctx, 300 if ctx.thorough() else 60)
+            + self.writeback_cases(ctx, 300 if ctx.thorough() else 60) + props_kvs.r6_c17_checksum_cases(self, ctx)
         for c in rest:
             if c.op == "kr_parse":
                 c.expect_fn = props_kvs.ref_oracle_on_case(c)
@@ -1031,6 +1034,8 @@ class C17(KProp):
         # names that read like another field of the file; keyrings larger than any reader's buffer, behind -k of the real program
         props_kvs.c17_name_family(self, ctx)
         props_kvs.c17_large(self, ctx)
+        # each of the four checksum bytes, for every section a command uses (recipient AND sender of encrypt, recipient of decrypt)
+        props_kvs.r6_c17_checksum_commands(self, ctx)
         self.prompt_writeback(ctx)
         ctx.search_note = "direct oracle over all %d cases" % ctx.evaluations
 
@@ -1345,7 +1350,12 @@ class C15(KProp):
             "through try_from / unlock / lock (string equality both ways) / wrong password / one salt bit flipped; conforming blobs cut to "
             "every kind of shorter length and followed or preceded by zero / ff / random / copied bytes (85, 86, .. 168 ..) through try_from, "
             "unlock with the right password and the keyring parser; the real process (key extract-pub, key change-pass, encrypt/decrypt with "
-            "a keyring holding such strings) on them; non-trivial = all")
+            "a keyring holding such strings) on them; changes to SEVERAL bytes of the 84: the same / different / cancelling masks on two, three, four "
+            "version bytes, every permutation of the version bytes, two bits / two equal masks / two exchanged bytes / reversal / rotation inside every "
+            "field, one bit in each of two fields, fields exchanged; strings of 112 characters or 112 bytes with ONE character outside base64 (letters "
+            "and digits of other scripts, fullwidth forms, marks, blanks, format characters, NUL) through try_from / unlock / the keyring parser / the "
+            "real program; sequences of unlock attempts in ONE driver process: k = 1..8 refused attempts (wrong passwords, damaged strings), then the "
+            "right password (props_kvs.r6_c15_*); non-trivial = all")
     assumptions = ["scrypt at N=32768 is not evaluated in Coq: the model takes the key from a table filled by the implementation's "
                    "scrypt (cross-checked here against Python hashlib.scrypt = OpenSSL)",
                    "AEAD unforgeability is not proved; tamper evidence is observed on every flipped bit"]
@@ -1451,9 +1461,18 @@ class C15(KProp):
         cases += fcases
         if foreign:
             cases += c15_length_cases(self, ctx, foreign)
+        # changes to SEVERAL bytes (pairs, equal masks, permutations, exchanges); 112-character strings with characters of other scripts
+        import props_kvs
+        r6 = [(locks[i].result["out"], triples[i][1], triples[i][0]) for i in (1, 5) if locks[i].result["code"] == 0]
+        for S6, pw6, sk6 in (r6 if ctx.thorough() else r6[:1]):
+            cases += props_kvs.r6_c15_cases(self, ctx, S6, pw6, sk6)
         self.run_kcases(ctx, cases)
         if foreign:
             c15_proc_checks(self, ctx, foreign)
+        # what the process did before has no influence: refused attempts, then the right password, in ONE driver process
+        props_kvs.r6_c15_sequences(self, ctx)
+        if r6:
+            props_kvs.r6_c15_proc(self, ctx, *r6[0])
         ctx.search_note = "direct oracle over all %d cases" % ctx.evaluations
 
 
@@ -1887,7 +1906,11 @@ class C16(ProcProp):
             "unlock (OpenSSL scrypt, RFC 8439 written out) and an independent RFC 7748 X25519: the printed PrivateKey unlocks under the NEW "
             "password to the original key, not under the old one, with a salt not seen before in the history; extract-pub prints the public key "
             "of the private key; a wrong / earlier password gives exit 1 and no key, whatever the surroundings; "
-            "non-trivial = all")
+            "RELATED passwords (P0 = the UTF-8 of P1 read as ISO-8859-1 / Windows-1252, once or twice; composed / decomposed; one byte per character; "
+            "fullwidth; case; eszett; UTF-16; a trailing blank) as earlier / newest password in process and through the real program, where the SAME "
+            "change-pass command is issued a second time on the newest string (refused) and on the first string (succeeds with a third salt), a wrong "
+            "old password is given while the requested new password is the current one, and extract-pub / encrypt / decrypt get the earlier password "
+            "(props_kvs.r6_c16_*); non-trivial = all")
     assumptions = ["fresh salts come from the operating system's generator: distinctness is observed per history, not proved",
                    "the CLI process is judged by direct oracles and compared with the CLI model: every run of the process histories that has a UTF-8 "
                    "environment (quick 71 of 100; salts and generated keys recovered from the output; evidence model-compared:histories, "
@@ -1896,8 +1919,13 @@ class C16(ProcProp):
 
     def explore(self, ctx):
         cases = inproc_histories(self, ctx, 20 if ctx.thorough() else 8)
+        # passwords that are related spellings of one another (mojibake, composed / decomposed, fullwidth, case ...)
+        import props_kvs
+        cases += props_kvs.r6_c16_inproc(self, ctx)
         self.run_kcases(ctx, cases)
         self.proc_histories(ctx, 24 if ctx.thorough() else 8)
+        # ... through the real program, and the same change-pass command issued twice
+        props_kvs.r6_c16_proc(self, ctx)
         t_su = time.time()
         self.surround_part(ctx)
         ctx.distribution["seconds:surroundings-part"] = round(time.time() - t_su, 1)
@@ -2438,6 +2466,9 @@ class C14(ProcProp):
             "fall inside the Name / PublicKey / PrivateKey value of the first, second or third generated block, between its lines, right "
             "before / behind it, or lie wholly before the generated keys: same judgement, then EVERY key of the file (the old one and each "
             "generated one) encrypts to itself and decrypts through -k F (tools/props_kvs.py::c14_big); "
+            "name SETS with an order relation - mixed-case initials (alice, Bob, carol, Dave), names that are prefixes of one another (alice-work, alice, "
+            "al), names with the format's punctuation that agree up to it (ops #1, ops #2; a=b, a; [Key]x, [Key) - generated in the given, the reverse "
+            "and random orders (thorough: up to 24 permutations), then EVERY key encrypts to the next one by name (props_kvs.r6_c14_related_names); "
             ""
             "EVERY process run of the histories is recorded and compared in one batch with the CLI model (Run/RunCli.v::run_cli_tree_x): the "
             "random bytes of a key generation are RECOVERED from the key it printed (the salt, and the private key by unlocking it with the "
@@ -2499,6 +2530,8 @@ class C14(ProcProp):
             # every key of the file is then used through -k F
             import props_kvs
             nbig = props_kvs.c14_big(self, ctx, w, max(pl["h"] for pl in plans) + 1)
+            # name SETS with an order relation (mixed case, prefixes of one another, the format's punctuation), in several orders
+            nbig += props_kvs.r6_c14_related_names(self, ctx, states, max(pl["h"] for pl in plans) + 1000)
             ctx.evaluations += w.nruns
             self.count(ctx, "proc:runs", w.nruns)
         finally:
